@@ -2,6 +2,7 @@
 
 #include <array>
 #include <cstring>
+#include <limits>
 #include <memory>
 #include <type_traits>
 #include <utility>
@@ -97,6 +98,9 @@ public:
           std::is_function_v<T_Pointed>,
         char,
         T_Pointed>;
+      detail::dynamic_check(
+        count <= std::numeric_limits<size_t>::max() / sizeof(T_El),
+        "unverified_safe_pointer_because called with too large a count");
       size_t bytes = sizeof(T_El) * count;
       detail::check_range_doesnt_cross_app_sbx_boundary<T_Sbx>(ret, bytes);
     }
@@ -589,6 +593,11 @@ private:
       return nullptr;
     }
 
+    detail::dynamic_check(
+      count <=
+        std::numeric_limits<size_t>::max() / sizeof(T_CopyAndVerifyRangeEl),
+      "Called copy_and_verify_range/copy_and_verify_string with too large a "
+      "count");
     detail::check_range_doesnt_cross_app_sbx_boundary<T_Sbx>(
       start, count * sizeof(T_CopyAndVerifyRangeEl));
 
